@@ -127,16 +127,26 @@ def build(cfg, values=None):
             if variant == 'history':
                 # one ConeCyl object evaluated, re-defined, evaluated again == a fresh object with the final definition
                 before, after = cfg['redefine']
+
+                def value(val):
+                    if val == 'MATRIX':
+                        R = np.zeros((8, 8), dtype=object)
+                        for i in range(8):
+                            for j in range(i, 8):
+                                if (i < 6) == (j < 6):
+                                    R[i, j] = R[j, i] = V('R%d%d' % (i, j))
+                        return R if nF == 8 else R[0:6, 0:6].copy()
+                    return V(val) if isinstance(val, str) else val
                 cc = cone(model)
                 for nm, val in before.items():
-                    setattr(cc, nm, V(val) if isinstance(val, str) else val)
+                    setattr(cc, nm, value(val))
                 cc._calc_linear_matrices(silent=True)
                 for nm, val in after.items():
-                    setattr(cc, nm, V(val) if isinstance(val, str) else val)
+                    setattr(cc, nm, value(val))
                 cc._calc_linear_matrices(silent=True)
                 fresh = cone(model)
                 for nm, val in after.items():
-                    setattr(fresh, nm, V(val) if isinstance(val, str) else val)
+                    setattr(fresh, nm, value(val))
                 fresh._calc_linear_matrices(silent=True)
                 for which in ('k0', 'kG0'):
                     A, B = getattr(cc, which).todict(), getattr(fresh, which).todict()
@@ -286,6 +296,29 @@ def build(cfg, values=None):
                 obs.append(('k0-vs-energy-hessian[%d,%d]' % k, kimpl.get(k, 0), re))
             if not (isinstance(im, Sym) and im.is_zero()):
                 obs.append(('energy-hessian-real[%d,%d]' % k, im, 0))
+    elif variant == 'presets':
+        # boundary-condition presets: the classical nomenclature (SS/CC 1-4: w restrained; 1: u, v restrained; 2: u free; 3: v free;
+        # 4: u and v free; CC: rotation w,x restrained as well; 'free': nothing) for the bottom and the top edge, 'Bot_Top' order
+        with ctx.shadow():
+            names = ['ss1', 'ss2', 'ss3', 'ss4', 'cc1', 'cc2', 'cc3', 'cc4', 'free']
+            want = {}
+            for nm in names:
+                if nm == 'free':
+                    want[nm] = dict(u=0, v=0, w=0, phix=0, phit=0)
+                else:
+                    k = int(nm[2])
+                    want[nm] = dict(u=1 if k in (1, 3) else 0, v=1 if k in (1, 2) else 0, w=1, phix=1 if nm.startswith('cc') else 0, phit=0)
+            pairs = [(a, a, a) for a in names] + [('%s_%s' % (a, b), a, b) for a, b in (('ss1', 'cc4'), ('cc2', 'ss3'), ('free', 'cc1'))] + [('ss2-cc3', 'ss2', 'cc3')]
+            for text, bot, top in pairs:
+                cc = ctx.new_cone(model, m1, m2, n2)
+                cc.r2, cc.L, cc.alphadeg = r2, L, V('alphadeg')
+                INF, ZERO = Sym(Fraction(123456)), Sym(Fraction(7, 9))     # sentinels below the 1e8 cap of _rebuild
+                cc.inf, cc.zero = INF, ZERO
+                cc.bc = text
+                cc._rebuild()
+                for edge, nm in (('Bot', bot), ('Top', top)):
+                    for dof, flag in want[nm].items():
+                        obs.append(('preset[%s:k%s%s]' % (text, dof, edge), Sym.lift(getattr(cc, 'k%s%s' % (dof, edge))), INF if flag else ZERO))
     elif variant == 'edges':
         # elastic edge restraints: the part of k0 that ConeCyl._calc_linear_matrices obtains through
         # modelDB.get_linear_matrices -> fk0edges, against the Hessian of the edge-spring energy
@@ -416,6 +449,7 @@ def configs(tier, seed):
         out.append({'variant': 'iso', 'model': model, 'mn': (3, 1, 1), 's': 1, 'cone': False, 'group': '(iii) iso=general (cylinder):%s:m1=3' % model, 'm': 3, 'n': 1, 'timeout_ms': 180000})
         out.append({'variant': 'iso', 'model': model, 'mn': (2, 2, 1), 's': 1, 'cone': True, 'group': '(iii) iso=general:%s' % model, 'm': 2, 'n': 1, 'timeout_ms': 180000})
         out.append({'variant': 'iso', 'model': model, 'mn': (2, 2, 1), 's': 1, 'cone': False, 'group': '(iii) iso=general (cylinder):%s' % model, 'm': 2, 'n': 1, 'timeout_ms': 180000})
+    out.append({'variant': 'presets', 'model': 'clpt_donnell_bc1', 'mn': (1, 1, 1), 's': 1, 'group': '(viii) boundary-condition presets', 'm': 1, 'n': 1})
     # (vi) shell part of k0 against the Hessian of the strain energy of the package's own linear strain field
     emodels = [m for m in sorted(MODELS) + sorted(ISO) if m != 'fsdt_sanders_bcn']
     for model in (['clpt_donnell_bc1', 'clpt_donnell_bc4', 'clpt_sanders_bc1', 'iso_clpt_donnell_bc3', 'fsdt_donnell_bc1'] if quick else emodels):
@@ -428,7 +462,8 @@ def configs(tier, seed):
     for model in (['clpt_donnell_bc1', 'fsdt_donnell_bc1'] if quick else names):
         for tag, red in (('cylinder-to-cone', ({'alphadeg': 0.}, {'alphadeg': 'alphadeg'})), ('cone-to-cylinder', ({'alphadeg': 'alphadeg'}, {'alphadeg': 0.})),
                          ('other-radius-and-length', ({'r2': 'r2_before', 'L': 'L_before'}, {'r2': 'r2', 'L': 'L'})),
-                         ('other-loads', ({'Fc': 'Fc_before', 'P': 'P_before', 'T': 'T_before'}, {'Fc': 'Fc', 'P': 'P', 'T': 'T'}))):
+                         ('other-loads', ({'Fc': 'Fc_before', 'P': 'P_before', 'T': 'T_before'}, {'Fc': 'Fc', 'P': 'P', 'T': 'T'})),
+                         ('constitutive-matrix-given-after-a-laminate', ({}, {'F_reuse': 'MATRIX'}))):
             out.append({'variant': 'history', 'model': model, 'mn': (2, 2, 1), 's': 1, 'cone': True, 'redefine': red, 'group': '(vii) re-definition %s:%s' % (tag, model), 'm': 1, 'n': 1, 'timeout_ms': 180000})
     # (v) elastic edge restraints through get_linear_matrices / fk0edges against the edge-spring energy
     import compmech.conecyl.modelDB as mdb
